@@ -20,6 +20,7 @@ import (
 func init() { register(&Check{ID: "C05", Run: runC05}) }
 
 var chunkLabelRe = regexp.MustCompile(`^S_[0-9]+$`)
+var labelL1Re = regexp.MustCompile(`\bL1\b`)
 
 type asmLine struct {
 	text    string // trimmed
@@ -224,9 +225,39 @@ func runC05(tier string) int {
 	// the file-level programs and the data families (C06 hoisting files, C08 mapscripts statements with several inline
 	// scripts of different shapes)
 	forEachDataFamilyFile(r, tier, evalFile)
+	// acceptance must not depend on -optimize: the dead-label programs with their label renamed to every generated label that
+	// either form emits (such a program is rejected - C20 - and it must be rejected in both forms)
+	dead := deadLabelPrograms()
+	r.Parallel(uint64(len(dead)), func(w int, pi uint64) {
+		base := model.Print([]*model.Script{dead[pi]})
+		rename := func(to string) string { return labelL1Re.ReplaceAllString(base, to) }
+		names := map[string]bool{}
+		for _, opt := range []bool{true, false} {
+			res := comp.Compile(rename("Renamed"), comp.Opts{Optimize: opt})
+			for _, l := range asmLines(res.Out) {
+				if l.isLabel && chunkLabelRe.MatchString(l.name) {
+					names[l.name] = true
+				}
+			}
+		}
+		// ... and to the next few numbers, which may name chunks whose labels neither form emits
+		limit := len(names) + 3
+		for n := 1; n <= limit; n++ {
+			names[fmt.Sprintf("S_%d", n)] = true
+		}
+		for name := range names {
+			src := rename(name)
+			a, b := comp.Compile(src, comp.Opts{Optimize: true}), comp.Compile(src, comp.Opts{Optimize: false})
+			r.Add("evaluations", 1)
+			r.Add("label_clash_acceptance_pairs", 1)
+			if (a.Err == nil) != (b.Err == nil) || a.Panic+b.Panic != "" {
+				r.Report(harness.Violation{Sig: "C05:accept-differs:label-clash", Summary: fmt.Sprintf("a label named %s: optimize on -> %v, optimize off -> %v %s\n  source: %q", name, a.Err, b.Err, firstLine(a.Panic+b.Panic), src), Replay: map[string]interface{}{"source": src, "optimized_error": fmt.Sprint(a.Err), "unoptimized_error": fmt.Sprint(b.Err)}})
+			}
+		}
+	})
 	r.Set("traces_validated_against_impl", r.Get("transitions"))
 	r.Assume("generated sub-labels are exactly the labels of the form <script>_<n>; user names never imitate them (generator guarantee)",
 		"clause readings: 'only reorders code and removes jumps' = the multiset of lines other than generated gotos and generated labels is identical and the optimized form has no more generated gotos")
 	return r.Finish(r.Get("evaluations"), r.Get("nontrivial"),
-		"the C01 families and C03 switch programs (re-enumerated here), plus the file-level programs and the data families (C06 hoisting files, C08 mapscripts statements with several inline scripts; reduced bounds); each case = one program compiled with optimize on and off, product exploration asm(on) x asm(off) over all game states plus static clauses (no goto to the next line, no unreferenced generated label, same visible labels, same non-goto lines); non-trivial = the two forms differ textually")
+		"the C01 families and C03 switch programs (re-enumerated here), plus the file-level programs and the data families (C06 hoisting files, C08 mapscripts statements with several inline scripts; reduced bounds); plus the dead-label programs with the label renamed to every sub-label name (acceptance must not depend on -optimize); each case = one program compiled with optimize on and off, product exploration asm(on) x asm(off) over all game states plus static clauses (no goto to the next line, no unreferenced generated label, same visible labels, same non-goto lines); non-trivial = the two forms differ textually")
 }
